@@ -150,6 +150,46 @@ def pelt_l2_end_to_end_stream(ctx, count):
                      {"what": "float-end-to-end-mismatch", "detector": "PELT"})
 
 
+def pelt_l2_columns_end_to_end_stream(ctx, count):
+    """END TO END in binary64 for SEVERAL columns (Properties/C02_binary64_l2_columns.v): 2..7 float columns, squared-error cost; Coq aggregates the per-column kernel twins as
+    NumPy's row sum does for fewer than 8 columns (sequentially from the left) and runs the PELT loop on primitive floats from the DATA; scores bit for bit, changepoints, and
+    the six boolean premises of the end-to-end theorem."""
+    from skchange.change_detectors import PELT
+    from skchange.costs import L2Cost
+    rng = ctx.rng
+    terms, metas = [], []
+    for it in range(count):
+        m = rng.choice([1, 2, 2, 3])
+        n = rng.randint(2 * m, 2 * m + 16)
+        p = rng.choice([2, 2, 3, 4, 5, 7])
+        kind = rng.choice(KINDS)
+        Xn = _data(rng, n, p, kind)
+        d = PELT(cost=L2Cost(), min_segment_length=m, penalty_scale=rng.choice([0.0, 0.3, 1.0, 2.0])).fit(pd.DataFrame(Xn))
+        pen = float(d.penalty_)
+        scores = d.transform_scores(pd.DataFrame(Xn)).to_numpy().reshape(-1)
+        cpts = [int(v) for v in d.predict(pd.DataFrame(Xn))["ilocs"]]
+        bmax = float(np.max(np.abs(Xn)))
+        bf = 2.0 ** math.ceil(math.log2(bmax + 1e-300) + 1e-9) if bmax > 0 else 1.0
+        magf = 2.0 ** math.ceil(math.log2(16.0 * (float(np.sum(Xn ** 2)) + abs(pen) * (n + 1) + 1.0)))
+        terms.append("{| m2_cols := %s; m2_n := %d%%nat; m2_pen := %s; m2_m := %d%%nat; m2_mag := %s; m2_b := %s; m2_cpts := %s; m2_scores := %s |}"
+                     % (coq_list([flist(Xn[:, j]) for j in range(p)]), n, fl(pen), m, fl(magf), fl(bf), nlist(cpts), flist(scores)))
+        metas.append({"detector": "PELT", "cost": "L2Cost", "min_segment_length": m, "n": n, "p": p, "data": kind, "X": Xn.tolist(), "penalty": pen, "Magf": magf, "Bf": bf,
+                      "impl_changepoints": cpts, "impl_scores": [float(v) for v in scores]})
+        ctx.case({"float": "pelt-l2-cols-e2e", "it": it, "n": n, "m": m, "p": p, "x0": float(Xn[0, 0])}, nontrivial=len(cpts) > 0,
+                 sample={"stream": "binary64 end-to-end PELT(L2Cost), several columns", "n": n, "m": m, "p": p, "impl_changepoints": cpts})
+        ctx.count("float_stream", f"pelt-l2-end-to-end:{p} columns")
+    bad = coq_bad_cases(ctx.cid, HEADER_RUN, "fpl2m_case", "fpl2m_case_ok", terms, shard=8, tag="fpl2m")
+    noprem = coq_bad_cases(ctx.cid, HEADER_RUN, "fpl2m_case", "fpl2m_case_premise", terms, shard=8, tag="fpl2mprem")
+    ctx.notes["binary64_l2_columns_end_to_end_premises"] = f"all six boolean premises of C02_binary64_l2_columns_end_to_end hold on {len(terms) - len(noprem)} of {len(terms)} cases"
+    if len(noprem) > len(terms) // 10:
+        ctx.mismatch(f"the premises of the binary64 several-column end-to-end theorem fail on {len(noprem)} of {len(terms)} ordinary cases", {"first": metas[noprem[0]]}, {"what": "float-e2e-premise"})
+    for i in bad[:20]:
+        mt = metas[i]
+        ctx.mismatch(f"PELT(L2Cost) on {mt['p']} float columns (n={mt['n']}, m={mt['min_segment_length']}, {mt['data']}): the per-column kernel twins l2_cost_F, added from the left as "
+                     f"NumPy's row sum does, followed by the generic PELT loop on primitive floats do not reproduce the implementation from the DATA (changepoints "
+                     f"{mt['impl_changepoints']} / scores bit for bit)", mt, {"what": "float-end-to-end-mismatch", "detector": "PELT"})
+
+
 def _from_data(ctx, case_type, terms2, metas2, what, tag, premise=True):
     """the univariate CUSUM cases once more WITHOUT the score table: Coq computes the scores with the binary64 kernel twin cusum_F from the data (Check/FloatRunCheck.v) and must
     reproduce the detector; the premise cusum_trace_ok of the kernel's refinement theorem is evaluated on every cut the detector read"""
